@@ -865,6 +865,30 @@ func c16Twins(e *c16Env) {
 		tw.finish()
 		e.rep.Count("family:twin-heights-47-303")
 	}
+	// 5b. (thorough tier) height 12032 = 0x2f00 reached by really committing blocks
+	if envTier() == "thorough" {
+		tw := e.newTwin("twin:height-12032", 2, false)
+		tw.do(mesh)
+		A, B := tw.a.names[0], tw.a.names[1]
+		p1 := pk{1, A, B, "", "tibcmock", "proved-at-12032"}
+		tw.do(func(h *NetH) { h.Send(0, p1) })
+		for _, stop := range []uint64{4000, 8000, 12032} { // the testing chains keep 10000 historical validator sets
+			c16AdvanceTo(tw, 0, stop)
+			tw.do(func(h *NetH) { h.UpdateClient(1, 0) })
+		}
+		if tw.a.latestKnown(1, 0) != 12032 {
+			e.rep.Fail("C16:harness-height-not-reached", "the scenario did not produce a consensus state at the intended height", 12032)
+		}
+		tw.reimport(1)
+		cb := tw.b.chains[1]
+		if _, ok := cb.App.TIBCKeeper.ClientKeeper.GetClientConsensusState(cb.GetContext(), A, clienttypes.NewHeight(0, 12032)); !ok {
+			e.rep.Fail(c16SigSlash, "consensus state at height 12032 is gone after export and re-import", map[string]any{"case": tw.name})
+		}
+		tw.do(func(h *NetH) { h.Recv(1, p1, ProofSpec{0, commitKey(p1)}, 12032) })
+		tw.do(func(h *NetH) { h.UpdateClient(1, 0) })
+		tw.finish()
+		e.rep.Count("family:twin-height-12032")
+	}
 	// 6. Tendermint pruning after import (iteration keys) and an expired consensus state
 	{
 		tw := e.newTwin("twin:tm-pruning", 2, false)
